@@ -151,6 +151,17 @@ func runC10(c *Ctx) {
 		})
 	}
 
+	// a dispatcher outside the vocabulary (the old one split or renamed) is judged inside the
+	// vocabulary function that reaches it: guards may sit in the caller
+	dispHome := dispatcher
+	if dispatcher != nil && c.P.IsNewHelper(dispatcher) {
+		for _, fn := range scope {
+			if !c.P.IsNewHelper(fn) && fn != dispatcher && helperGroup(c.P, fn)[dispatcher] {
+				dispHome = fn
+			}
+		}
+	}
+
 	// ---------- R1: construction sites anywhere in the library ----------
 	nSites := 0
 	for _, fn := range c.P.AllLibFuncs() {
@@ -286,7 +297,7 @@ func runC10(c *Ctx) {
 					sort.Slice(rts, func(i, j int) bool { return rts[i] < rts[j] })
 				} else if isHandler && len(ps) >= 2 && rt == ps[1] {
 					rts = keysOf[fn]
-				} else if fn == dispatcher {
+				} else if fn == dispatcher || fn == dispHome {
 					rts = nil // unknown type without handler: must carry no value
 					if hasV {
 						bad = "the dispatcher builds a value for a record type without handler"
@@ -366,7 +377,7 @@ func runC10(c *Ctx) {
 		if st := c.P.Func("rules", "strToRRType"); st != nil {
 			g.Pure[FuncName(st)] = true
 		}
-		s := g.Eval(dispatcher)
+		s := g.Eval(dispHome)
 		u := g.U
 		c.Fn(FuncName(dispatcher))
 		bad := "no dynamic handler call"
